@@ -275,7 +275,8 @@ pub(crate) fn unit(
                 return Err(Error::new(span, Unexpected { kind }));
             }
             OP_DIV => {
-                current = -current;
+                // Everything which follows a division is inverted.
+                current = -1;
             }
             WHITESPACE | OP_MUL => {}
             kind => {
